@@ -224,7 +224,7 @@ func parseSer(a []string) (*serSpec, bool) {
 // run serializes layer l into a buffer with history hist; returns (out, err, panicked).
 func (s *serSpec) run(l gopacket.SerializableLayer, hist string) (out []byte, err error, panicked bool) {
 	b, _ := prepBuf(hist, s.lays, s.payload)
-	_, panicked = lib.Protect(func() string {
+	_, panicked = protectS(func() string {
 		err = l.SerializeTo(b, s.opts())
 		return ""
 	})
